@@ -242,6 +242,7 @@ func init() {
 		c.rulesR4lastpass()
 		c.rulesR5histbreak()
 		c.rulesR5hist2()
+		c.rulesR5getmach()
 		c.rulesC17ord()
 		c.rulesR3misc("C17")
 		c.rulesR3misc("C14") // C14.net: a history bound to the mirror records what the tracers are told
